@@ -1099,6 +1099,42 @@ func TestReorgHistories(t *testing.T) {
 				if err := n.Restart(); err != nil {
 					t.Fatalf("restart after a crash at store write %d of the delivery of %s failed: %v\ntree: %s\ntrace: %v", crashWrite, b.name(), err, tr.describe(), trace)
 				}
+				// Before anything is submitted again: what the node itself holds pending after the restart. The
+				// pending container lives in memory, so what was queued before the crash is gone; but a block removal
+				// that the crash interrupted is completed at start-up, and completing it queues the block's
+				// transactions again. Either way a block that was on the chain before the crash and is not any more
+				// has all of its transactions (the ones not executed on the chain now) pending, or none of them:
+				// a removal is never half done.
+				if hr := tr.byHash[boot.Chain().TopBlock().Hash]; hr != nil {
+					onNew := map[common.Hash]bool{}
+					for _, a := range ancestors(hr) {
+						for _, tx := range a.txs {
+							onNew[tx.Hash] = true
+						}
+					}
+					for x := head; x != nil && !isAncestor(x, hr); x = x.parent {
+						var pend, not []common.Hash
+						for _, tx := range x.txs {
+							if onNew[tx.Hash] {
+								continue
+							}
+							if boot.Pool().IsExisted(tx.Hash) {
+								pend = append(pend, tx.Hash)
+							} else {
+								not = append(not, tx.Hash)
+							}
+						}
+						switch {
+						case len(pend) > 0 && len(not) > 0:
+							t.Fatalf("crash at store write %d of the delivery of %s (%d writes lost), restart: block %s is no longer on the chain and its removal was completed at start-up, but only %d of its %d transactions are pending again (%d are neither executed nor pending)\ntree: %s\ntrace: %v",
+								crashWrite, b.name(), dropped, x.name(), len(pend), len(pend)+len(not), len(not), tr.describe(), trace)
+						case len(pend) > 0:
+							stats.Class(fmt.Sprintf("p2_crash_removed_block_requeued_at_startup_%dtx", imin(len(pend), 3)))
+						case len(not) > 0:
+							stats.Class(fmt.Sprintf("p2_crash_removed_block_not_requeued_%dtx", imin(len(not), 3)))
+						}
+					}
+				}
 				for _, tx := range tr.txs {
 					boot.Pool().AddTransaction(copyTx(tx)) // what is executed on the chain must be refused
 				}
@@ -1381,7 +1417,9 @@ func TestConcurrentMixes(t *testing.T) {
 						errs[g] = append(errs[g], fmt.Sprintf("goroutine %d panicked: %v\n%s", g, r, debug.Stack()))
 					}
 				}()
-				bad := func(f string, a ...interface{}) { errs[g] = append(errs[g], fmt.Sprintf("goroutine %d: ", g)+fmt.Sprintf(f, a...)) }
+				bad := func(f string, a ...interface{}) {
+					errs[g] = append(errs[g], fmt.Sprintf("goroutine %d: ", g)+fmt.Sprintf(f, a...))
+				}
 				<-start
 				for _, o := range scripts[g] {
 					switch o.kind {
